@@ -245,10 +245,79 @@ def replay_case(case):
     return out.result()
 
 
+# ---- thorough: trigonometric fields (outside the model; decided by the harness against sympy's own integrals) ----
+TRIG_FIELDS = {
+    "(sin(y),x*cos(y),0)": lambda x, y, z: [sin(y), x * cos(y), sp.S.Zero],
+    "(y*cos(x),sin(x)+y**2,0)": lambda x, y, z: [y * cos(x), sin(x) + y ** 2, sp.S.Zero],
+    "(sin(x)*cos(z),z*sin(y),x*cos(y)+z**2)": lambda x, y, z: [sin(x) * cos(z), z * sin(y), x * cos(y) + z ** 2],
+}
+TRIG_REGIONS = [{"k": "rect", "c": [[0, 1], [0, 1], [0, 1]], "s": [[2, 1], [3, 1], [0, 1]]},
+                {"k": "box", "c": [[0, 1], [-1, 1], [1, 1]], "s": [[1, 1], [2, 1], [2, 1]]}]
+
+
+def trig_cases():
+    return [{"type": "trig", "field": f, "reg": r} for f in TRIG_FIELDS for r in TRIG_REGIONS]
+
+
+def replay_trig(case):
+    from symplyphysics.core.fields import analysis as an
+    from symplyphysics.core.fields.vector_field import VectorField
+    _init()
+    out = Out(case)
+    fn, reg = TRIG_FIELDS[case["field"]], case["reg"]
+    own = fn(fc.X, fc.Y, fc.Z)
+    lo, hi = [fc.rat(v) for v in reg["c"]], [fc.rat(v) for v in reg["s"]]
+
+    def check(lib, variant, required, thunks):
+        key = f"{lib}:{case['field']}:{region_name(reg)}"
+        total = sp.S.Zero
+        for th in thunks:
+            out.calls += 1
+            try:
+                with time_limit(CALL_LIMIT):
+                    total = total + sp.sympify(th())
+            except HardTimeout:
+                out.verdicts.append(("outside", key, f"{lib} timed out after {CALL_LIMIT} s (trigonometric field)"))
+                return
+        if total.free_symbols:
+            out.verdicts.append(("violation", key, f"variant {variant}: result is not a number: {total}"))
+        elif abs(complex(sp.N(total - required, 40))) > 1e-25:
+            out.verdicts.append(("violation", key, f"variant {variant}: result {total}, required {required}"))
+
+    if reg["k"] == "box":
+        field = VectorField(lambda p: fn(p.x, p.y, p.z), CART[0])
+        req = sp.integrate(fc.cart_div(own), (fc.X, lo[0], hi[0]), (fc.Y, lo[1], hi[1]), (fc.Z, lo[2], hi[2]))
+        check("flux_across_surface", "std", req,
+              [lambda f=f: an.flux_across_surface(field, *f) for f in box_faces(reg, "std")])
+        check("flux_across_volume_boundary", "std", req,
+              [lambda: an.flux_across_volume_boundary(field, *zip(lo, hi))])
+        return out.result()
+    field = VectorField(lambda p: fn(p.x, p.y, p.z), CART[0])
+    at0 = {fc.Z: 0}
+    req = sp.integrate(fc.cart_curl(own)[2].subs(at0), (fc.X, lo[0], hi[0]), (fc.Y, lo[1], hi[1]))
+    for variant in ("std", "retime", "rev"):
+        sign = -1 if variant == "rev" else 1
+        check("circulation_along_curve", variant, sign * req,
+              [lambda tr=tr, lim=lim: an.circulation_along_curve(field, tr, lim)
+               for tr, lim in rect_edges(reg, variant, True)])
+        surf, p1, p2 = rect_surface(reg, variant, True)
+        check("circulation_along_surface_boundary", variant, sign * req,
+              [lambda: an.circulation_along_surface_boundary(field, surf, p1, p2)])
+    if own[2] == 0 and not any(c.has(fc.Z) for c in own):
+        field2 = VectorField(lambda p: fn(p.x, p.y, p.z)[:2], CART[0])
+        req2 = sp.integrate(sp.diff(own[0], fc.X) + sp.diff(own[1], fc.Y), (fc.X, lo[0], hi[0]), (fc.Y, lo[1], hi[1]))
+        for variant in ("std", "retime", "rev"):
+            check("flux_across_curve", variant, (-1 if variant == "rev" else 1) * req2,
+                  [lambda tr=tr, lim=lim: an.flux_across_curve(field2, tr, lim)
+                   for tr, lim in rect_edges(reg, variant, True)])
+        surf, p1, p2 = rect_surface(reg, "std", True)
+        check("flux_across_surface_boundary", "std", req2,
+              [lambda: an.flux_across_surface_boundary(field2, surf, p1, p2)])
+    return out.result()
+
+
 # ---- driver --------------------------------------------------------------------------------------------
-def validate_trace(run: Run, sc, records, label):
-    if not records:
-        return
+def _tlc_trace(sc, records, label):
     path = sc / f"c13_{label}.ndjson"
     with open(path, "w") as f:
         for r in records:
@@ -257,11 +326,18 @@ def validate_trace(run: Run, sc, records, label):
                     constants=dict(D=TRACE_D, MaxDeg=0, MaxTerms=0, EmitDeg=0, EmitTerms=0, Regions="<-RegionsAll"),
                     invariants=["Validate", "Stokes", "Green", "Gauss"], postcondition="AllSeen")
     res = run_tlc("IntegralsTrace", cfg, sc, workers=1, env={"TRACE_FILE": str(path)}, allow_violation=False)
-    run.add_tlc(res, f"trace validation ({label}): {len(records)} recorded circulation / flux results decided by TLC "
-                     f"(IntegralsTrace: Expected = CircByStokes / FluxByGreen / FluxByGauss)")
     if res.distinct != len(records):
         raise RuntimeError(f"trace validation visited {res.distinct} states for {len(records)} records")
     rejected = [int(v[1]) for v in map(parse_tla_tuple, res.raw_prints) if v and v[0] == "REJECT"]
+    return res, rejected
+
+
+def validate_trace(run: Run, sc, records, label):
+    if not records:
+        return []
+    res, rejected = _tlc_trace(sc, records, label)
+    run.add_tlc(res, f"trace validation ({label}): {len(records)} recorded circulation / flux results decided by TLC "
+                     f"(IntegralsTrace: Expected = CircByStokes / FluxByGreen / FluxByGauss)")
     run.traces += len(records)
     run.coverage.setdefault("trace_records_validated", {})[label] = len(records)
     run.coverage.setdefault("trace_records_rejected", {})[label] = len(rejected)
@@ -269,6 +345,22 @@ def validate_trace(run: Run, sc, records, label):
         r = records[i - 1]
         got = "not a number" if r["num"] == 0 else f"q={r['q']} p={r['p']} (value q + p*pi)"
         run.violation(r["key"], f"TLC rejects the result of {r['lib']} (variant {r['variant']}): {got}", r.get("replay", {}))
+    return rejected
+
+
+def selftest_trace(run: Run, sc, records):
+    """Binding self-test: the orientation flag of one accepted record with a non-zero value is flipped; TLC must
+    reject exactly that record."""
+    sample = [dict(r) for r in records if r["num"] == 1][:40]
+    idx = [i for i, r in enumerate(sample) if r["q"][0] != 0 or r["p"][0] != 0]
+    if not idx:
+        return
+    k = idx[len(idx) // 2]
+    sample[k]["rev"] = 1 - sample[k]["rev"]
+    _, rejected = _tlc_trace(sc, sample, "selftest")
+    if rejected != [k + 1]:
+        raise RuntimeError(f"trace self-test: corrupted record {k + 1}, TLC rejected {rejected}")
+    run.coverage["selftest"] = "flipping the orientation flag of one recorded result made TLC reject that record"
 
 
 def collect(run: Run, results, label):
@@ -320,7 +412,18 @@ def main() -> int:
                 run.sample({k: v for k, v in c.items() if k != "curved"})
             results = list(pmap(pool, replay_case, cases, chunk=4))
             records += collect(run, results, f"emission{n}")
-        validate_trace(run, sc, records, "all")
+        rejected = set(validate_trace(run, sc, records, "all"))
+        selftest_trace(run, sc, [r for i, r in enumerate(records, 1) if i not in rejected])
+        if t["curved"]:
+            n_trig = 0
+            for res in pmap(pool, replay_trig, trig_cases(), chunk=1):
+                n_trig += res["calls"]
+                for kind, key, what in res["verdicts"]:
+                    if kind == "outside":
+                        run.outside(what)
+                    else:
+                        run.violation(key, what, res["case"])
+            run.coverage["trigonometric_field_calls_decided_by_harness_outside_TLC_fragment"] = n_trig
     run.coverage["bounds"] = {"model": t["model"], "emissions": t["emits"], "trace_D": TRACE_D,
                               "variants": {"curve": ["std", "retime (t -> 2t)", "shift (t -> t + c)", "rev"],
                                            "surface": ["std", "retime", "rev (parameters swapped)"] +
@@ -340,7 +443,7 @@ def replay_file(path: str) -> int:
     data = json.loads(open(path).read())
     case = data["case"]
     _init()
-    res = replay_case(case)
+    res = replay_trig(case) if case.get("type") == "trig" else replay_case(case)
     bad = [v for v in res["verdicts"] if v[0] == "violation"]
     with Scratch() as sc:
         run = Run(PID, "replay")
